@@ -1,0 +1,242 @@
+//! Verification-only accessors, compiled only with `--cfg hbs_lms_verif`.
+//!
+//! Every function is a thin call into the crate's existing private functions; none of them
+//! changes behaviour. They exist so that the model-based verification in `/verif` can observe
+//! pure internal functions (digit encoding, counter arithmetic, seed derivation, zeroization)
+//! that the public API only exposes end to end.
+
+use core::convert::TryFrom;
+use tinyvec::ArrayVec;
+use zeroize::{Zeroize, ZeroizeOnDrop};
+
+use crate::{
+    constants::{LmsTreeIdentifier, MAX_ALLOWED_HSS_LEVELS, MAX_HASH_SIZE},
+    hasher::HashChain,
+    hss::{
+        definitions::HssPrivateKey,
+        reference_impl_private_key::{
+            CompressedParameterSet, CompressedUsedLeafsIndexes, ReferenceImplPrivateKey, Seed,
+            SeedAndLmsTreeIdentifier,
+        },
+    },
+    lm_ots::{definitions::LmotsPrivateKey, parameters::LmotsAlgorithm},
+    lms::definitions::LmsPrivateKey,
+    util::coef::coef,
+};
+
+/// `(n, w, p, ls)` as the crate's parameter table has them for an LM-OTS type code.
+pub fn ots_params<H: HashChain>(type_id: u32) -> Option<(u16, u8, u16, u8)> {
+    let p = LmotsAlgorithm::get_from_type::<H>(type_id)?;
+    Some((
+        p.get_hash_function_output_size() as u16,
+        p.get_winternitz(),
+        p.get_num_winternitz_chains(),
+        p.get_checksum_left_shift(),
+    ))
+}
+
+/// The chain positions (message digits followed by checksum digits) the signer uses for `digest`,
+/// computed by the very functions `LmotsSignature::sign_core` calls. Returns the digit count.
+pub fn digits<H: HashChain>(type_id: u32, digest: &[u8], out: &mut [u8]) -> Option<usize> {
+    let p = LmotsAlgorithm::get_from_type::<H>(type_id)?;
+    if digest.len() != p.get_hash_function_output_size() {
+        return None;
+    }
+    let with_checksum = p.append_checksum_to(digest);
+    let count = p.get_num_winternitz_chains();
+    for i in 0..count {
+        out[i as usize] = coef(with_checksum.as_slice(), i, p.get_winternitz()) as u8;
+    }
+    Some(count as usize)
+}
+
+/// Leaf index per level for a counter, through `CompressedUsedLeafsIndexes::to`.
+pub fn ctr_digits<H: HashChain>(
+    param_bytes: &[u8],
+    ctr: u64,
+    out: &mut [u32; MAX_ALLOWED_HSS_LEVELS],
+) -> Option<usize> {
+    let parameters = CompressedParameterSet::from_slice(param_bytes)
+        .ok()?
+        .to::<H>()
+        .ok()?;
+    *out = CompressedUsedLeafsIndexes::new(ctr).to(&parameters);
+    Some(parameters.len())
+}
+
+/// Successor counter through `CompressedUsedLeafsIndexes::increment`; `None` = "wipe the key".
+pub fn ctr_succ(heights: &[u8], ctr: u64) -> Option<u64> {
+    let tree_heights: ArrayVec<[u8; MAX_ALLOWED_HSS_LEVELS]> = heights.iter().copied().collect();
+    let mut c = CompressedUsedLeafsIndexes::new(ctr);
+    c.increment(&tree_heights).ok()?;
+    Some(c.count())
+}
+
+/// Remaining lifetime through `HssPrivateKey::get_lifetime`, without generating any tree.
+pub fn ctr_lifetime<H: HashChain>(param_bytes: &[u8], ctr: u64) -> Option<u64> {
+    let parameters = CompressedParameterSet::from_slice(param_bytes)
+        .ok()?
+        .to::<H>()
+        .ok()?;
+    let indexes = CompressedUsedLeafsIndexes::new(ctr).to(&parameters);
+    let mut key = HssPrivateKey::<H>::default();
+    for (i, parameter) in parameters.iter().enumerate() {
+        key.private_key.push(LmsPrivateKey::new(
+            Seed::default(),
+            LmsTreeIdentifier::default(),
+            indexes[i],
+            *parameter.get_lmots_parameter(),
+            *parameter.get_lms_parameter(),
+        ));
+    }
+    Some(key.get_lifetime())
+}
+
+/// Top-level tree seed and identifier derived from a private-key blob.
+pub fn root_seed_and_id<H: HashChain>(
+    key_blob: &[u8],
+) -> Option<(ArrayVec<[u8; MAX_HASH_SIZE]>, LmsTreeIdentifier)> {
+    let key = ReferenceImplPrivateKey::<H>::from_binary_representation(key_blob).ok()?;
+    let root = key.generate_root_seed_and_lms_tree_identifier();
+    let seed = ArrayVec::try_from(root.seed.as_slice()).ok()?;
+    Some((seed, root.lms_tree_identifier))
+}
+
+// ---------------------------------------------------------------------------------------------
+// Secret lifecycle probes (property "secret-bearing values are wiped").
+// ---------------------------------------------------------------------------------------------
+
+/// Compile-time assertion that every secret-bearing type is `ZeroizeOnDrop`.
+pub fn assert_zeroize_on_drop<H: HashChain>() {
+    fn is_zod<T: ZeroizeOnDrop>() {}
+    is_zod::<Seed<H>>();
+    is_zod::<SeedAndLmsTreeIdentifier<H>>();
+    is_zod::<ReferenceImplPrivateKey<H>>();
+    is_zod::<LmsPrivateKey<H>>();
+    is_zod::<LmotsPrivateKey<H>>();
+}
+
+/// Names of the secret-bearing types the probes cover.
+pub const SECRET_TYPES: [&str; 5] = [
+    "Seed",
+    "SeedAndLmsTreeIdentifier",
+    "ReferenceImplPrivateKey",
+    "LmsPrivateKey",
+    "LmotsPrivateKey",
+];
+
+fn filled_seed<H: HashChain>(fill: u8) -> Seed<H> {
+    let mut seed = Seed::<H>::default();
+    for b in seed.as_mut_slice() {
+        *b = fill;
+    }
+    seed
+}
+
+fn filled_lmots_key<H: HashChain>(fill: u8) -> LmotsPrivateKey<H> {
+    let parameter = LmotsAlgorithm::construct_default_parameter::<H>();
+    let mut key = ArrayVec::new();
+    for _ in 0..parameter.get_num_winternitz_chains() {
+        key.push(ArrayVec::from_array_len(
+            [fill; MAX_HASH_SIZE],
+            H::OUTPUT_SIZE as usize,
+        ));
+    }
+    LmotsPrivateKey::new([fill; 16], [fill; 4], key, parameter)
+}
+
+/// Builds the named secret-bearing value with every secret byte set to `fill`, calls
+/// `zeroize()` on it and reports how many secret bytes it held before and how many bytes equal
+/// to `fill` remain in its secret fields afterwards: `(secret_bytes_before, surviving_bytes)`.
+pub fn zeroize_probe<H: HashChain>(type_name: &str, fill: u8) -> Option<(usize, usize)> {
+    let count = |bytes: &[u8]| bytes.iter().filter(|&&b| b == fill).count();
+    match type_name {
+        "Seed" => {
+            let mut v = filled_seed::<H>(fill);
+            let before = count(v.as_slice());
+            v.zeroize();
+            Some((before, count(v.as_slice())))
+        }
+        "SeedAndLmsTreeIdentifier" => {
+            let mut v = SeedAndLmsTreeIdentifier::<H>::new(&filled_seed::<H>(fill), &[fill; 16]);
+            let before = count(v.seed.as_slice()) + count(&v.lms_tree_identifier);
+            v.zeroize();
+            Some((before, count(v.seed.as_slice()) + count(&v.lms_tree_identifier)))
+        }
+        "ReferenceImplPrivateKey" => {
+            let mut v = ReferenceImplPrivateKey::<H>::default();
+            v.seed = filled_seed::<H>(fill);
+            v.compressed_used_leafs_indexes =
+                CompressedUsedLeafsIndexes::new(u64::from_be_bytes([fill; 8]));
+            let before = count(v.seed.as_slice()) + 8;
+            v.zeroize();
+            Some((
+                before,
+                count(v.seed.as_slice())
+                    + count(&v.compressed_used_leafs_indexes.count().to_be_bytes()),
+            ))
+        }
+        "LmsPrivateKey" => {
+            let mut v = LmsPrivateKey::<H>::default();
+            v.seed = filled_seed::<H>(fill);
+            v.lms_tree_identifier = [fill; 16];
+            v.used_leafs_index = u32::from_be_bytes([fill; 4]);
+            let before = count(v.seed.as_slice()) + 16 + 4;
+            v.zeroize();
+            Some((
+                before,
+                count(v.seed.as_slice())
+                    + count(&v.lms_tree_identifier)
+                    + count(&v.used_leafs_index.to_be_bytes()),
+            ))
+        }
+        "LmotsPrivateKey" => {
+            let mut v = filled_lmots_key::<H>(fill);
+            let chain_bytes = |v: &LmotsPrivateKey<H>| -> usize {
+                v.key.as_slice().iter().map(|x| count(x.as_slice())).sum()
+            };
+            let before = chain_bytes(&v) + 16 + 4;
+            v.zeroize();
+            Some((
+                before,
+                chain_bytes(&v)
+                    + count(&v.lms_tree_identifier)
+                    + count(&v.lms_leaf_identifier),
+            ))
+        }
+        _ => None,
+    }
+}
+
+/// A populated value of one of the secret-bearing types. The crate forbids `unsafe`, so the
+/// hook only constructs the value (every secret byte set to `fill`); the verification harness
+/// moves it into storage it owns, drops it in place and scans the storage for surviving bytes.
+pub enum SecretValue<H: HashChain> {
+    Seed(Seed<H>),
+    SeedAndId(SeedAndLmsTreeIdentifier<H>),
+    RefKey(ReferenceImplPrivateKey<H>),
+    Lms(LmsPrivateKey<H>),
+    Lmots(LmotsPrivateKey<H>),
+}
+
+pub fn populated_secret<H: HashChain>(type_name: &str, fill: u8) -> Option<SecretValue<H>> {
+    match type_name {
+        "Seed" => Some(SecretValue::Seed(filled_seed::<H>(fill))),
+        "SeedAndLmsTreeIdentifier" => Some(SecretValue::SeedAndId(
+            SeedAndLmsTreeIdentifier::<H>::new(&filled_seed::<H>(fill), &[fill; 16]),
+        )),
+        "ReferenceImplPrivateKey" => {
+            let mut v = ReferenceImplPrivateKey::<H>::default();
+            v.seed = filled_seed::<H>(fill);
+            Some(SecretValue::RefKey(v))
+        }
+        "LmsPrivateKey" => {
+            let mut v = LmsPrivateKey::<H>::default();
+            v.seed = filled_seed::<H>(fill);
+            v.lms_tree_identifier = [fill; 16];
+            Some(SecretValue::Lms(v))
+        }
+        "LmotsPrivateKey" => Some(SecretValue::Lmots(filled_lmots_key::<H>(fill))),
+        _ => None,
+    }
+}
